@@ -132,7 +132,12 @@ def comment(L: Layout) -> list[str]:
             txt = re.sub(r"(?<=:)//", "/ /", txt) if False else txt
             out.append(txt + L.nl)          # a line comment ends with the line
         else:
-            out.append("/* " + body + " */")
+            # plain, or boxed / banner style: runs of stars of either parity next to the opener and the closer, star-only
+            # comments, a star inside
+            m = r.randrange(8)
+            bc = ("/* " + body + " */" if m < 4 else "/** " + body + " **/" if m == 4 else "/*" + "*" * r.randrange(1, 10) + "/" if m == 5
+                  else "/*** " + body.replace("*", "") + " * x ***/" if m == 6 else "/* " + body + " " + "*" * r.randrange(1, 6) + "/")
+            out.append(bc)
         L.comment_texts.append(out[-1])
         L.dims.add("comment")
     return out
